@@ -26,6 +26,9 @@ type stepIn struct {
 	Files  map[string]*string `json:"files,omitempty"`
 	Fails  int                `json:"fails"`
 	GiveUp bool               `json:"give_up,omitempty"`
+	// DuringCfg: new content written to the config file in the middle of this apply pass, when
+	// expandEnv logs its warning about an unset variable (needs tolerate and such a reference)
+	DuringCfg *string `json:"during_cfg,omitempty"`
 }
 
 type input struct {
@@ -57,6 +60,14 @@ func facts(repo string, w io.Writer) error {
 	}
 	fmt.Fprintln(w, "(* pkg/reloader/reloader.go: if-conditions and returns of Reloader.apply, in source order *)")
 	fmt.Fprintln(w, common.EventsCoq("apply_decisions", keep))
+	var reads []common.Event
+	for _, e := range evs {
+		if e.Kind == "call" && (e.Text == "hashFile" || e.Text == "r.normalize") {
+			reads = append(reads, e)
+		}
+	}
+	fmt.Fprintln(w, "(* pkg/reloader/reloader.go: the hashFile / r.normalize calls of Reloader.apply, in source order *)")
+	fmt.Fprintln(w, common.EventsCoq("apply_reads", reads))
 	wev, err := s.CallOrder("Reloader.Watch")
 	if err != nil {
 		return err
@@ -73,6 +84,28 @@ func facts(repo string, w io.Writer) error {
 	}
 	fmt.Fprintln(w, "(* pkg/reloader/reloader.go: events of the endless loop of Reloader.Watch, in source order *)")
 	fmt.Fprintln(w, common.EventsCoq("watch_loop", wev[start:]))
+	return nil
+}
+
+// hookLogger runs fn once when a log call carries the given msg value.
+type hookLogger struct {
+	msg string
+	fn  func()
+}
+
+func (h *hookLogger) Log(kv ...interface{}) error {
+	if h.fn == nil {
+		return nil
+	}
+	for i := 0; i+1 < len(kv); i += 2 {
+		if k, ok := kv[i].(string); ok && k == "msg" {
+			if v, ok := kv[i+1].(string); ok && v == h.msg {
+				f := h.fn
+				h.fn = nil
+				f()
+			}
+		}
+	}
 	return nil
 }
 
@@ -172,16 +205,17 @@ func run(raw json.RawMessage) (common.Case, error) {
 		opts.CfgFile, opts.CfgOutputFile = cfgPath, cfgOut
 	}
 	fr := &fakeReload{}
-	rl := reloader.VerifC47New(opts, fr)
+	hl := &hookLogger{msg: "expand environment variable"}
+	rl := reloader.VerifC47NewWithLogger(hl, opts, fr)
 
 	var curCfg *string
 	cur := map[string]string{}
 	var coqSteps []string
 	var obs []obsStep
 	// Go-side predicate state
-	var lastOK *string
+	var lastOK, loaded *string
 	pending, anyErrPass := false, false
-	nEdits := 0
+	nEdits, nDuring := 0, 0
 	for _, st := range in.Steps {
 		if st.DelCfg {
 			os.Remove(cfgPath)
@@ -209,8 +243,30 @@ func run(raw json.RawMessage) (common.Case, error) {
 		}
 		ctx, cancel := context.WithCancel(context.Background())
 		*fr = fakeReload{fails: st.Fails, giveUp: st.GiveUp, cancel: cancel}
+		// what this pass reads (an edit made while it runs lands after its reads of the config file)
+		readCfg := curCfg
+		readFiles := map[string]string{}
+		for k, v := range cur {
+			readFiles[k] = v
+		}
+		fired := false
+		hl.fn = nil
+		if st.DuringCfg != nil && in.HasCfg && curCfg != nil {
+			newc := *st.DuringCfg
+			hl.fn = func() {
+				fired = true
+				_ = os.WriteFile(cfgPath, []byte(newc), 0o644)
+			}
+		}
 		aerr := reloader.VerifC47Apply(rl, ctx)
+		hl.fn = nil
 		cancel()
+		if fired {
+			v := *st.DuringCfg
+			curCfg = &v
+			nEdits++
+			nDuring++
+		}
 		o := obsStep{Err: aerr != nil, OutDir: map[string]string{}, Tried: fr.calls > 0, Succeeded: fr.ok > 0, Attempts: fr.calls}
 		if b, err := os.ReadFile(cfgOut); err == nil {
 			s := string(b)
@@ -231,10 +287,10 @@ func run(raw json.RawMessage) (common.Case, error) {
 		}
 		var cfgSnap *string
 		if in.HasCfg {
-			cfgSnap = curCfg
+			cfgSnap = readCfg
 		}
 		coqSteps = append(coqSteps, common.Tuple(
-			common.Pair(optBytes(cfgSnap), coqFiles(cur)),
+			common.Pair(optBytes(cfgSnap), coqFiles(readFiles)),
 			common.Pair(common.Nat(st.Fails), common.Bool(st.GiveUp)),
 			common.Tuple(common.Bool(o.Err), optBytes(o.OutCfg), coqFiles(o.OutDir), common.Bool(o.Tried), common.Bool(o.Succeeded), att)))
 		// Go-side predicate (search aid)
@@ -257,6 +313,17 @@ func run(raw json.RawMessage) (common.Case, error) {
 				lastOK = &snap
 			}
 		}
+		outNow := fmt.Sprint(o.OutCfg != nil, coqFiles(o.OutDir))
+		if o.OutCfg != nil {
+			outNow = fmt.Sprint(*o.OutCfg, coqFiles(o.OutDir))
+		}
+		if o.Succeeded {
+			loaded = &outNow
+		}
+		if !pending && (loaded == nil || *loaded != outNow) && c.GoPred == "" {
+			c.GoPred = "no reload pending, but the outputs differ from those loaded by the last successful reload (the process runs a stale configuration)"
+			c.Sig = "stale-loaded-config"
+		}
 		if len(o.OutDir) != len(cur) && c.GoPred == "" {
 			c.GoPred = fmt.Sprintf("output directory has %d files for %d inputs", len(o.OutDir), len(cur))
 			if anyErrPass {
@@ -273,6 +340,9 @@ func run(raw json.RawMessage) (common.Case, error) {
 	c.Coq = common.App("CReload", common.Bool(in.HasCfg), common.Bool(in.Tolerate), common.List(env), common.List(coqSteps))
 	c.Obs = obs
 	c.Class = fmt.Sprintf("cfg=%v/tolerate=%v", in.HasCfg, in.Tolerate)
+	if nDuring > 0 {
+		c.Class += "/edit-during-apply"
+	}
 	c.Nontrivial = len(in.Steps) >= 2 && nEdits >= 2
 	return c, nil
 }
@@ -544,6 +614,20 @@ func gen(r *rand.Rand, tier string, n int) []any {
 				st.Fails = 1 + r.Intn(2)
 			case 1:
 				st.Fails, st.GiveUp = r.Intn(2), true
+			}
+			// the config file is edited while this very pass runs (between its reads and its end)
+			if in.HasCfg && in.Tolerate && r.Intn(4) == 0 {
+				v := fmt.Sprintf("before: %d-%d $(UNSET)\n", i, s)
+				st.Cfg, st.DelCfg = &v, false
+				cfgExists = true
+				d := fmt.Sprintf("after: %d-%d %s\n", i, s, genContent(r, true))
+				st.DuringCfg = &d
+				in.Steps = append(in.Steps, st)
+				// then the files stop changing: undisturbed passes
+				for q := 0; q < 1+r.Intn(2); q++ {
+					in.Steps = append(in.Steps, stepIn{})
+				}
+				continue
 			}
 			in.Steps = append(in.Steps, st)
 		}
